@@ -1,7 +1,12 @@
 import Glas.Props.C02
+import Glas.Props.C02Marks
 #print axioms Glas.Props.C02.glas_checked
 #print axioms Glas.Props.C02.check_sound_safe
 #print axioms Glas.Props.C02.check_sound_terminates
 #print axioms Glas.Props.C02.C02_safe
 #print axioms Glas.Props.C02.C02_terminates
 #print axioms Glas.Props.C02.bound_eq
+#print axioms Glas.Props.C02Marks.glas_marks_checked
+#print axioms Glas.Props.C02Marks.mcheck_sound
+#print axioms Glas.Props.C02Marks.C02_marks
+#print axioms Glas.Props.C02Marks.C02_total
